@@ -137,6 +137,24 @@ def loop_resets(fn):
     return "ResetNone", "(no assignment quit_ = false at the top level of loop())"
 
 
+def quit_order(fn):
+    """does EventLoop::quit() store quit_ = true BEFORE the statement that (conditionally) calls wakeup()?"""
+    pos_store, pos_wake = None, None
+    for i, c in enumerate(kids(cxxast.body(fn))):
+        if c.get("kind") in ("BinaryOperator", "CXXOperatorCallExpr") and pos_store is None:
+            names = [n.get("name") for n in cxxast.walk(c) if n.get("kind") == "MemberExpr"]
+            lits = [n.get("value") for n in cxxast.walk(c) if n.get("kind") == "CXXBoolLiteralExpr"]
+            if "quit_" in names and lits == [True]:
+                pos_store = i
+        if calls(c, "wakeup") and pos_wake is None:
+            pos_wake = i
+    if pos_store is None:
+        raise cxxast.Untranslatable("EventLoop::quit does not assign quit_ = true at its top level")
+    if pos_wake is None:
+        return True, "quit_ = true; (no call of wakeup())"
+    return pos_store < pos_wake, ("quit_ = true comes before the wake-up" if pos_store < pos_wake else "the wake-up comes before quit_ = true")
+
+
 def clean(s):
     return s.replace("*)", "* )").replace("(*", "( *")
 
@@ -166,6 +184,14 @@ def main():
     except Exception as e:  # noqa
         out.append("(* MISSING loop_resets_quit: %s *)" % clean(str(e)))
         msgs.append("MISSING loop_resets_quit (%s)" % e)
+    try:
+        qf, src = quit_order(cxxast.function_decl(REL, "EventLoop::quit"))
+        out.append("(* %s, EventLoop::quit: %s *)" % (REL, clean(src)))
+        out.append("Definition quit_stores_before_wakeup : bool := %s." % ("true" if qf else "false"))
+    except Exception as e:  # noqa
+        out.append("(* FALLBACK quit_stores_before_wakeup: %s *)" % clean(str(e)))
+        out.append("Definition quit_stores_before_wakeup : bool := true.")
+        msgs.append("FALLBACK quit_stores_before_wakeup (%s)" % e)
     out.append("")
     out.append("Definition gen_shape : C04_Model.shape :=\n  C04_Model.mkShape queueInLoop_wake_test loop_resets_quit quit_wake_test.")
     txt = "\n".join(out) + "\n"
